@@ -94,7 +94,7 @@ impl ConfigIndex {
         param: &ConfigQueryParam,
     ) -> (usize, Vec<ConfigKey>) {
         let mut rlist = vec![];
-        let end_index = offset + limit;
+        let end_index = offset.saturating_add(limit);
         let mut index = 0;
         for (g, set) in &self.group_data {
             if param.match_group(g) {
